@@ -141,10 +141,15 @@ func FormatNumber(value float64, picture string, format DecimalFormat) (string, 
 	}
 
 	exponent := 0
-	if vars.MinExponentSize != 0 {
+	if vars.MinExponentSize != 0 && value != 0 {
 
 		maxMantissa := math.Pow(10, float64(vars.ScalingFactor))
 		minMantissa := math.Pow(10, float64(vars.ScalingFactor-1))
+
+		// Scale the magnitude. The sign is already part of the
+		// prefix, and zero or a negative number would never
+		// reach the mantissa range.
+		value = math.Abs(value)
 
 		for value < minMantissa {
 			value *= 10
